@@ -93,6 +93,11 @@ func NewHandshake(conn net.Conn, meta *lib.PeerMeta, privateKey crypto.PrivateKe
 	if err != nil {
 		return nil, ErrInvalidPublicKey(err)
 	}
+	// both sides sign the same challenge, so a peer presenting our own identity proves nothing:
+	// it may simply be echoing our own signature (and signed meta) back to us
+	if peerPublicKey.Equals(privateKey.PublicKey()) {
+		return nil, ErrFailedChallenge()
+	}
 	// verify the peer signature to confirm the identity
 	if !peerPublicKey.VerifyBytes(challenge[:], peerSig.Signature) {
 		return nil, ErrFailedChallenge()
